@@ -14,7 +14,7 @@ func init() { runners["C03"] = runC03 }
 
 // C03: every reported decision is a self-contained, verifiable finality proof
 func runC03(o *out, r *rng, thorough bool, rp string) {
-	o.Rule = "single real gpbft.Participant driven to a decision by a puppet committee (random histories first, then DECIDE votes in every arrival order, minority DECIDEs for other values, own DECIDE looped back at a random point; tables with skewed powers and dust members of zero scaled power; the supplemental data commits to a DIFFERENT next power table): the reported justification is checked field by field against the harness's own record of the DECIDE votes delivered, turned into a certificate with certs.MakePowerTableDiff and validated by certs.ValidateFinalityCertificates from the same power table; the event trace (incl. the decision's value and signer set) is replayed against Layer N and the certificate against the certificate model inside Coq; plus multi-node adversarial executions with the c03 monitors; non-trivial = a decision was reported"
+	o.Rule = "single real gpbft.Participant driven to a decision by a puppet committee (random histories first, then DECIDE votes in every arrival order, minority DECIDEs for other values, own DECIDE looped back at a random point; tables with skewed powers and dust members of zero scaled power; the supplemental data commits to a DIFFERENT next power table): the reported justification is checked field by field against the harness's own record of the DECIDE votes delivered, turned into a certificate with certs.MakePowerTableDiff and validated by certs.ValidateFinalityCertificates from the same power table; the event trace (incl. the decision's value and signer set) is replayed against Layer N and the certificate against the certificate model inside Coq; plus multi-node adversarial executions with the c03 monitors; non-trivial = a decision was reported; every fourth committee has byte-scale raw powers with the total swept over the bit lengths next to the native integer widths, and all quorum arithmetic of the driver and its monitors is the harness's own"
 	x := &c04ctx{t: newTok(), sigs: map[string]*sigRec{}}
 	n := 160
 	if thorough {
